@@ -69,13 +69,21 @@ CLAIMED = {
    text="The real coordinator ShardController and StatusResource run over a harness-owned metadata store and coordination-RPC layer against 5 real storage nodes (real ShardsDirector, WAL, Pebble). Seeded schedules inject: coordinator death at chosen points (before/after the k-th metadata write; at the send or after the execution of the k-th NewTerm/BecomeLeader/AddFollower/DeleteShard) followed by a restart from the stored metadata, per-message loss (request or response) and delay, node process crashes (database back to its flushed image) and restarts, also between a node's NewTerm answer and BecomeLeader, leader-failure notifications (true and false), node swaps, and exact re-deliveries of earlier requests. Monitors run under the harness lock in record order and decide: durable-before-send, no term reuse across incarnations, one BecomeLeader target / one OK answer / one LEADER report / one stored leader per term, leader and followers are fenced members of the stored ensemble with the answered heads and the leader's head maximal, fenced majority of the ensemble, node terms never regress (answers, status polls, flushed crash image at the answer). A second part watches the real file metadata provider with concurrent observers for torn states.",
    note="Crash points are sampled by (kind, ordinal) per schedule, not enumerated exhaustively per election; the 15-minute give-up of the status resource's retry loop (after which an election would proceed without a durable term) is out of reach of a bounded run and is described in DESIGN.md. Safety only: elections that never complete are counted, not judged.",
    technique="fault injection at coordinator crash points / message loss / node crashes + online trace monitors over recorded RPCs and metadata writes + race detector"),
+ "C01": dict(engine="coord", level="exploration",
+   text="4 clients write (unique values), delete and range-delete 8 keys through whichever node the stored shard metadata names as leader, against 5 real storage nodes under the real coordinator ShardController, while the C05 nemesis runs (leader and node process crashes to the flushed database image, restarts, stalled followers, node swaps, coordinator deaths at chosen points and restarts, lost/delayed coordination messages). Every call is recorded at the client boundary with call/return ticks of one logical clock. After the faults stop a leader is awaited (bounded) and every key is read from it: the value must not come from a write that had returned before an acknowledged write or delete of that key was invoked, absence needs a delete that can be ordered after every acknowledged put, and a value nobody wrote is a violation. An election that installs a leader whose log ends below a commit offset some leader had reported is recorded and used to label the violation with its root cause.",
+   note="'As long as a majority keeps its disk': the harness never removes a disk (crash = process crash; the only wipes are the coordinator's own DeleteShard). Failed/timed-out operations are treated as possibly applied at any later time. Session create/close are covered by C14, not here.",
+   technique="recorded client history + durability oracle over call/return order at quiescence, under fault injection + race detector"),
+ "C02": dict(engine="coord", level="exploration",
+   text="5 clients (put, conditional put on the version last seen, delete, get; 6 keys; unique values) under the C01 nemesis; each operation is recorded at the client boundary with call/return ticks, serving node and its term; failed or timed-out operations stay open to the end of the history and retire their client id. porcupine checks every per-key sub-history against a register model in which a get served by a node whose term was still the highest stored term when it returned must see the latest value, and a get served by an already superseded leader may see any earlier committed value but nothing unwritten; every version id must be reported with one value only; final reads on the last leader close the history.",
+   note="Per-key partitioning (list / range-scan / delete-range are checked sequentially by C12 and for durability by C01, not for linearizability); checker timeout (60 s) is inconclusive. Conditional puts are modelled on values (version ids and values are 1:1, which is itself checked).",
+   technique="recorded client history + porcupine linearizability check (per-key register model with stale-read allowance) under fault injection + race detector"),
 }
 
 NOT_APPLICABLE = {}
 DEFAULT_NA = "check not built yet in this session (work in progress)"
 
 ENGINES = [
- {"name": "coord", "path": "harness/engines/coord", "serves_properties": ["C05"],
+ {"name": "coord", "path": "harness/engines/coord", "serves_properties": ["C01", "C02", "C05"],
   "kind_free_text": "real coordinator ShardController + StatusResource over harness-owned metadata store and coordination RPCs (lib/ctl), real storage nodes (lib/replcluster); real file metadata provider under concurrent observers"},
  {"name": "repl", "path": "harness/engines/repl", "serves_properties": ["C03", "C04", "C06", "C07", "C08"],
   "kind_free_text": "real leader/follower controllers through the real ShardsDirector, wired by harness-owned in-memory replication streams; harness plays coordinator"},
